@@ -121,3 +121,107 @@ Proof.
   rewrite first_b_cons in Hf. apply andb_true_iff in Hf. destruct Hf as [Hf1 Hf2].
   constructor; [apply row_checker_sound; assumption|apply IH; assumption].
 Qed.
+
+(* ================= completeness: the declarative statements imply the boolean clauses ================= *)
+Lemma list_eqb_refl {A} (eqb : A -> A -> bool) (a : list A) :
+  (forall x, In x a -> eqb x x = true) -> list_eqb eqb a a = true.
+Proof.
+  induction a as [|x a IH]; intros H; [reflexivity|]. cbn [list_eqb].
+  rewrite (H x (or_introl eq_refl)). apply IH. intros y Hy. apply H. right. exact Hy.
+Qed.
+Lemma ftok_eqb_refl a : ftok_eqb a a = true.
+Proof. destruct a as [n m e| |n]; cbn [ftok_eqb]; [|reflexivity|apply eqb_reflx]. rewrite eqb_reflx, !Z.eqb_refl. reflexivity. Qed.
+Lemma scalar_eqb_refl a : scalar_eqb a a = true.
+Proof. destruct a; cbn [scalar_eqb]; [apply eqb_reflx|apply Z.eqb_refl|apply ftok_eqb_refl]. Qed.
+Lemma dtype_eqb_refl a : dtype_eqb a a = true.
+Proof. destruct a as [[] []]; reflexivity. Qed.
+Lemma zl_eqb_refl a : zl_eqb a a = true.
+Proof. induction a as [|x a IH]; [reflexivity|]. cbn [zl_eqb]. rewrite Z.eqb_refl. exact IH. Qed.
+Lemma layout_eqb_refl a : layout_eqb a a = true.
+Proof. destruct a; reflexivity. Qed.
+
+Lemma pyval_eqb_refl : forall a, pyval_eqb a a = true.
+Proof.
+  induction a as [| | | | |l IH|l IH|dt x|dt sh lay el] using pyval_rect'; cbn [pyval_eqb].
+  - reflexivity.
+  - apply eqb_reflx.
+  - apply Z.eqb_refl.
+  - apply ftok_eqb_refl.
+  - apply String.eqb_refl.
+  - induction IH as [|u l Hu _ IHl]; [reflexivity|]. rewrite Hu. exact IHl.
+  - induction IH as [|[k u] l Hu _ IHl]; [reflexivity|]. cbn [snd] in Hu. rewrite String.eqb_refl, Hu. exact IHl.
+  - rewrite dtype_eqb_refl, scalar_eqb_refl. reflexivity.
+  - rewrite dtype_eqb_refl, zl_eqb_refl, layout_eqb_refl. cbn [andb].
+    apply list_eqb_refl. intros; apply scalar_eqb_refl.
+Qed.
+
+Theorem json_checker_complete d :
+  json_keys_b d (normalise_top d) = true /\ json_vals_b d (normalise_top d) = true.
+Proof.
+  unfold json_keys_b, json_vals_b, normalise_top. rewrite !map_map. cbn [fst snd]. split.
+  - apply list_eqb_refl. intros; apply key_eqb_refl.
+  - apply list_eqb_refl. intros; apply pyval_eqb_refl.
+Qed.
+
+Theorem py_checker_complete d : py_spec_b d d = true.
+Proof.
+  unfold py_spec_b. apply list_eqb_refl. intros x _. rewrite String.eqb_refl, pyval_eqb_refl. reflexivity.
+Qed.
+
+Lemma NoDup_nodup_b l : NoDup l -> nodup_b l = true.
+Proof.
+  induction 1 as [|x l Hx _ IH]; [reflexivity|]. cbn [nodup_b]. rewrite IH, andb_true_r.
+  apply negb_true_iff. apply smem_notin. exact Hx.
+Qed.
+
+Lemma row_checker_complete first excl n r o :
+  Row_Obs first excl n r o -> row_spec_b excl n r o = true /\ first_b first [o] = true.
+Proof.
+  intros (H1 & H2 & H3). split.
+  - unfold row_spec_b. rewrite (NoDup_nodup_b _ H1). cbn [andb]. apply forallb_forall. intros k _. apply H2.
+  - destruct first as [f|]; [|reflexivity]. cbn [first_b forallb]. rewrite andb_true_r.
+    destruct (smem f (map fst o)) eqn:E; [|reflexivity]. cbn [negb orb].
+    apply smem_in in E. destruct (H3 f eq_refl E) as (t' & Et). destruct o as [|[k c] t]; [discriminate Et|].
+    cbn [map fst] in Et. injection Et as -> _. apply String.eqb_refl.
+Qed.
+
+Theorem rows_checker_complete first excl n : forall rows out,
+  Forall2 (Row_Obs first excl n) rows out -> rows_spec_b excl n rows out = true /\ first_b first out = true.
+Proof.
+  induction 1 as [|r o rows out Hr _ IH]; [split; [reflexivity|destruct first; reflexivity]|].
+  destruct (row_checker_complete first excl n r o Hr) as [A B]. destruct IH as [C D].
+  cbn [rows_spec_b]. rewrite A, C, first_b_cons, B, D. split; reflexivity.
+Qed.
+
+(* ---- two-column tables: clause 26 on an observed output, as a statement and back ---- *)
+Definition Simple_Obs (field : string) (data : list (Z * value)) (of : string) (out : list (Z * cell)) : Prop :=
+  of = field /\ NoDup (map fst out) /\
+  forall id, ocell_match (option_map expected_raw (lookup Z.eqb id data)) (lookup Z.eqb id out) = true.
+
+Lemma zmem_in x l : zmem x l = true <-> In x l.
+Proof.
+  induction l as [|y l IH]; [split; [discriminate|intros []]|]. cbn [zmem In]. rewrite orb_true_iff, IH.
+  split; intros [H|H]; auto; [left; lia|left; lia].
+Qed.
+Lemma znodup_b_iff l : znodup_b l = true <-> NoDup l.
+Proof.
+  induction l as [|x l IH]; [split; [constructor|reflexivity]|]. cbn [znodup_b]. rewrite andb_true_iff, negb_true_iff, IH.
+  split.
+  - intros [H1 H2]. constructor; [|exact H2]. intros Hin. apply zmem_in in Hin. congruence.
+  - intros H. inversion H as [|? ? Hx Hl]; subst. split; [|exact Hl].
+    destruct (zmem x l) eqn:E; [|reflexivity]. apply zmem_in in E. contradiction.
+Qed.
+Lemma zeqb_sound' a b : Z.eqb a b = true -> a = b.
+Proof. lia. Qed.
+
+Theorem simple_checker_iff field data of out :
+  simple_spec_b field data of out = true <-> Simple_Obs field data of out.
+Proof.
+  unfold simple_spec_b, Simple_Obs. rewrite !andb_true_iff, String.eqb_eq, znodup_b_iff, forallb_forall. split.
+  - intros [[H1 H2] H3]. split; [exact H1|]. split; [exact H2|]. intros id.
+    destruct (in_dec Z.eq_dec id (map fst data ++ map fst out)) as [Hin|Hnot]; [apply H3, Hin|].
+    assert (Hd : ~ In id (map fst data)) by (intros Hk; apply Hnot, in_or_app; left; exact Hk).
+    assert (Ho : ~ In id (map fst out)) by (intros Hk; apply Hnot, in_or_app; right; exact Hk).
+    rewrite (lookup_notin Z.eqb zeqb_sound' id data Hd), (lookup_notin Z.eqb zeqb_sound' id out Ho). reflexivity.
+  - intros (H1 & H2 & H3). split; [split; assumption|]. intros id _. apply H3.
+Qed.
